@@ -12,4 +12,6 @@ func init() {
 	register(C03{})
 	register(C04{})
 	register(C05{})
+	register(C06{})
+	register(C20{})
 }
